@@ -39,6 +39,9 @@ pub struct RunFile {
     /// engine B: the exact Miri command line
     #[serde(default)]
     pub miri: Option<Vec<String>>,
+    /// the run was executed with re-entrant strategy calls switched off (see `stub::NO_NEST`)
+    #[serde(default)]
+    pub no_nest: bool,
     pub violation: Violation,
 }
 
@@ -159,6 +162,7 @@ pub fn run_block_c17(verif_seed: u64, block: u64, n_runs: usize, opts: &BlockOpt
     let (mut nt, mut tr) = (BTreeSet::new(), BTreeSet::new());
     for run in 0..n_runs as u64 {
         let seed = run_seed(verif_seed, block, run);
+        crate::engine::CURRENT_RUN.store(run, std::sync::atomic::Ordering::Relaxed);
         let g = gen_run(seed, Mode::C17);
         // every 8th run also checks the in-process pristine instances against brand-new processes
         let ro = RunOpts { fresh_process: run % 8 == 7, ..RunOpts::default() };
@@ -185,6 +189,7 @@ pub fn run_block_c17(verif_seed: u64, block: u64, n_runs: usize, opts: &BlockOpt
                 spec: Some(explicit(&g.spec, &r.trace)),
                 build_case: None,
                 miri: None,
+                no_nest: stub::NO_NEST.load(std::sync::atomic::Ordering::Relaxed),
                 violation: v.clone(),
             });
             if opts.stop_first {
@@ -403,8 +408,24 @@ pub fn check_build_case(case: &BuildCase) -> Option<(String, String)> {
 /// error is attributable
 fn plan_for(t: usize, i: usize, k: usize, panic: bool) -> Vec<Act> {
     let mut p = vec![Act::Ok; k];
-    p.push(if panic { Act::Panic } else { Act::Err(format!("tok-t{t}-o{i}-k{k}")) });
+    p.push(if panic { Act::Panic } else { Act::Err(token_for(t, i, k)) });
     p
+}
+
+/// error payloads a user strategy might return: "unchanged" must hold for unusual contents too
+/// (empty, long, braces as in format strings, quotes, newlines, non-ASCII, leading/trailing blanks)
+pub fn token_for(t: usize, i: usize, k: usize) -> String {
+    let base = format!("tok-t{t}-o{i}-k{k}");
+    match (t * 31 + i * 7 + k) % 9 {
+        0 => String::new(),
+        1 => format!("{base} {}", "x".repeat(300)),
+        2 => format!("{base} {{}} {{0}} {{:?}} %s %d"),
+        3 => format!("{base} \"quoted\" 'single' \\ back\\slash"),
+        4 => format!("{base}\nsecond line\r\n\ttabbed"),
+        5 => format!("{base} \u{e4}\u{f6}\u{fc} \u{4e2d}\u{6587} \u{1f600}"),
+        6 => format!("  {base}  "),
+        _ => base,
+    }
 }
 
 pub fn run_block_c18(verif_seed: u64, block: u64, n_bases: usize, opts: &BlockOpts) -> BlockSummary {
@@ -436,6 +457,7 @@ pub fn run_block_c18(verif_seed: u64, block: u64, n_bases: usize, opts: &BlockOp
                 spec: Some(explicit(spec, &r.trace)),
                 build_case: None,
                 miri: None,
+                no_nest: stub::NO_NEST.load(std::sync::atomic::Ordering::Relaxed),
                 violation: v.clone(),
             });
             return true;
@@ -444,6 +466,7 @@ pub fn run_block_c18(verif_seed: u64, block: u64, n_bases: usize, opts: &BlockOp
     };
     'bases: for run in 0..n_bases as u64 {
         let seed = run_seed(verif_seed ^ 0xC18, block, run);
+        crate::engine::CURRENT_RUN.store(run, std::sync::atomic::Ordering::Relaxed);
         let g = gen_run(seed, Mode::C18);
         let mut r = Rng::new(derive(seed, 77));
         // --- base run: no faults -----------------------------------------------------------
@@ -511,7 +534,7 @@ pub fn run_block_c18(verif_seed: u64, block: u64, n_bases: usize, opts: &BlockOp
                             while op.plan.len() < k2 {
                                 op.plan.push(Act::Ok);
                             }
-                            op.plan.push(Act::Err(format!("tok-t{t}-o{i}-k{k2}")));
+                            op.plan.push(Act::Err(token_for(t, i, k2 + 100)));
                         }
                     }
                 }
@@ -543,6 +566,7 @@ pub fn run_block_c18(verif_seed: u64, block: u64, n_bases: usize, opts: &BlockOp
                     spec: None,
                     build_case: Some(case.clone()),
                     miri: None,
+                    no_nest: stub::NO_NEST.load(std::sync::atomic::Ordering::Relaxed),
                     violation: Violation { property: "C18".into(), kind, detail, thread: 0, op: 0, step: 0 },
                 });
                 if opts.stop_first {
